@@ -66,6 +66,7 @@ def check_case(case, stats=None, n_shuffles=3, dfs_cap=0):
     concurrent = any(t in tg for t in ('has_fork', 'has_join', 'multi_start'))
     runs = []
     viol = []
+    forced = 'has_command' in tg or 'has_expr_failure' in tg
 
     def one(label, sched, evict, salt):
         c = dict(case)
@@ -76,7 +77,7 @@ def check_case(case, stats=None, n_shuffles=3, dfs_cap=0):
         res = enginerun.run_case(c)
         if res.start_error is not None or not res.quiescent:
             return None, res
-        return enginerun.canon_rows(res), res
+        return enginerun.canon_rows(res, error_output=not forced), res
 
     base_rows = None
     base_res = None
